@@ -292,3 +292,25 @@ def nuclides_with_the_same_label_are_refused_without_a_trace(state: int):
     assert len(nuclideBases.byLabel) == 1 and len(nuclideBases.byMcnpId) == 1 and len(nuclideBases.byAAAZZZSId) == 1
     assert same(nuclideBases.byLabel[first.label], first) and same(nuclideBases.byName[first.name], first)
     assert len(el.nuclides) == 1 and same(el.nuclides[0], first)
+
+
+# ------------------------------------------------------------------------------------------ natural isotopics
+@lemma(gen={"a0": (170, 190), "a1": (170, 190), "a2": [0, 181], "s0": [0, 1], "s1": [0, 1], "ab0": [0.0, 0.00012, 0.5], "ab1": [0.0, 0.99988, 0.5], "ab2": [0.0, 1.0]})
+def natural_isotopics_are_the_isotopes_with_an_abundance_whatever_their_state(a0: int, s0: int, ab0: float, a1: int, s1: int, ab1: float, a2: int, ab2: float):
+    """Element.getNaturalIsotopics on an element listing three entries with symbolic mass number, isomeric state and
+    abundance: exactly the isotopes (a > 0; a = 0 is the natural-element placeholder) with a positive abundance are
+    returned, in list order, whatever their isomeric state (Ta-180m is a naturally occurring ISOMER); so the abundances
+    returned sum to the sum over the element's isotopes - one when those sum to one."""
+    assume(a0 > 0 and a1 > 0 and a2 >= 0 and ab0 >= 0 and ab1 >= 0 and ab2 >= 0 and 0 <= s0 and s0 <= 3 and 0 <= s1 and s1 <= 3)
+    el = element("Ta", 73)
+    n0 = new(NuclideBase, z=73, a=a0, state=s0, abundance=ab0)
+    n1 = new(NuclideBase, z=73, a=a1, state=s1, abundance=ab1)
+    n2 = new(NuclideBase, z=73, a=a2, state=0, abundance=ab2)
+    el.nuclides = [n0, n1, n2]
+    nat = el.getNaturalIsotopics()
+    assert (any(same(x, n0) for x in nat)) == (ab0 > 0), "an isotope with an abundance is natural, isomer or not"
+    assert (any(same(x, n1) for x in nat)) == (ab1 > 0)
+    assert (any(same(x, n2) for x in nat)) == (ab2 > 0 and a2 > 0), "the a = 0 placeholder of the natural element is not an isotope"
+    assert len(nat) == (1 if ab0 > 0 else 0) + (1 if ab1 > 0 else 0) + (1 if (ab2 > 0 and a2 > 0) else 0), "each once, nothing else"
+    total = sum([x.abundance for x in nat])
+    assert eq(total, ab0 + ab1 + (ab2 if a2 > 0 else 0.0)), "the natural abundances returned are all of the element's"
